@@ -56,7 +56,14 @@ def _gen_repeat(rng, tier, i):
     if i >= (60 if tier == "quick" else 1500):
         return None
     step = ["segment_haar", "segment_none", "segmetrics", "fix", "bintest", "shuffle_sort"][i % 6]
-    return dict(step=step, cnarr=_bin_table(rng, tier, nchrom=rng.randint(1, 3), nbins=40 if step == "fix" else None), seeds=(rng.randrange(10 ** 6), rng.randrange(10 ** 6)),
+    cn = _bin_table(rng, tier, nchrom=rng.randint(1, 3), nbins=40 if step == "fix" else None)
+    if step in ("segmetrics", "bintest", "fix"):
+        # weighted segment statistics are undefined when all bins of a segment have zero weight (C17 quantifies over
+        # weights in (0, 1]); keep the weights positive for these steps
+        w = cn.data["weight"].values.copy()
+        w[w == 0] = 0.25
+        cn.data["weight"] = w
+    return dict(step=step, cnarr=cn, seeds=(rng.randrange(10 ** 6), rng.randrange(10 ** 6)),
                 procs=rng.choice([2, 3, 16]))
 
 
